@@ -353,7 +353,14 @@ namespace
             if (cands.empty()) return;
             size_t r;
             if (budget <= 0 || depth > 4000) r = minimal[size_t(rng.below(minimal.size()))];
-            else r = cands[size_t(rng.below(cands.size()))];
+            else
+            {
+                // while there is budget left, rules that grow the sentence are three times as likely as the minimal ones:
+                // otherwise recursive structures end geometrically early whatever the budget
+                std::vector<size_t> w;
+                for (size_t c : cands) { w.push_back(c); if (rule_min[c] > min_len[size_t(nt)]) { w.push_back(c); w.push_back(c); } }
+                r = w[size_t(rng.below(w.size()))];
+            }
             for (const ref::Sym& s : g.rules[r].rhs)
             {
                 if (s.term) { out.push_back(s.idx); --budget; }
@@ -365,7 +372,7 @@ namespace
     bool wordy(unsigned char c) { return (c >= '0' && c <= '9') || (c >= 'a' && c <= 'z') || (c >= 'A' && c <= 'Z') || c == '_' || c == '-' || c == '.'; }
 }
 
-std::vector<PTok> gen_sentence(const ref::Model& m, Rng& rng, int budget, bool ws_rich, bool skip_ws, bool skip_nl)
+std::vector<PTok> gen_sentence(const ref::Model& m, Rng& rng, int budget, bool ws_rich, bool skip_ws, bool skip_nl, bool dense)
 {
     SentenceGen sg(m, rng, budget);
     sg.expand(m.g.root, 0);
@@ -389,7 +396,7 @@ std::vector<PTok> gen_sentence(const ref::Model& m, Rng& rng, int budget, bool w
         }
         else tk.lex = ts.data;
         if (tk.lex.empty()) tk.lex = ts.kind == ref::T_REGEX ? sample_regex(*m.lexer->regexes()[size_t(t)], rng, 1) : "?";
-        std::string ws = ws_rich ? rng.pick(ws_fancy) : rng.pick(ws_plain);
+        std::string ws = dense ? std::string() : (ws_rich ? rng.pick(ws_fancy) : rng.pick(ws_plain));
         if (!skip_ws) ws.clear();
         else if (!skip_nl)
         {
